@@ -57,6 +57,13 @@ func (in *nestInst) mk(class string) (v any, stackLike bool) {
 		a := new(StackAlias)
 		in.vars = append(in.vars, a)
 		return a, false
+	case "ptr-iface-stack": // the address of an interface variable that holds a Stack: not a Stack, not an alias
+		var box any = stackage.Or().Push(t)
+		return &box, false
+	case "ptr-iface-ptr-alias":
+		a := StackAlias(stackage.And().Push(t))
+		var box any = &a
+		return &box, false
 	case "nil-ptr-alias": // a pointer that points at no Stack is not a Stack
 		return (*StackAlias)(nil), false
 	case "nil-ptr-stack":
@@ -80,6 +87,9 @@ func isStackLike(v any) bool {
 			return false
 		}
 		rv = rv.Elem()
+	}
+	if rv.Kind() == reflect.Interface {
+		return false // a pointer to an interface VARIABLE is a pointer to a variable, whatever the variable holds today
 	}
 	if rv.Kind() != reflect.Ptr && rv.CanInterface() && rv.Interface() != v {
 		switch tv := rv.Interface().(type) {
@@ -125,6 +135,12 @@ func c13Ops(maxBatch int, classes []string, cond bool) []nestOp {
 		return ops
 	}
 	ops = append(ops, nestOp{"Pop", 0, nil, "pop"}, nestOp{"SetPushPolicy(accept everything)", 0, nil, "pol-on"}, nestOp{"SetPushPolicy(nil)", 0, nil, "pol-off"})
+	// the other way values arrive: a source stack transferred into this one (element by element through Push)
+	for _, cl := range classes {
+		if cl != "nil" {
+			ops = append(ops, nestOp{"Transfer[prim " + cl + "] into this", 2, []string{"prim", cl}, "transfer"})
+		}
+	}
 	var rec func(prefix []string)
 	rec = func(prefix []string) {
 		if len(prefix) > 0 {
@@ -147,6 +163,7 @@ func c13Machine(c *Ctx, kind string, maxL, maxBatch int, classes []string, cond 
 	decorated := strings.HasSuffix(kind, "+decorated")
 	kind = strings.TrimSuffix(kind, "+decorated")
 	kind = strings.Replace(kind, "+vars", "", 1)
+	kind = strings.Replace(kind, "+boxed", "", 1)
 	rejected := strings.Contains(kind, "+rejected")
 	kind = strings.Replace(kind, "+rejected", "", 1)
 	capk := 0
@@ -292,6 +309,19 @@ func c13Machine(c *Ctx, kind string, maxL, maxBatch int, classes []string, cond 
 						bad("pop", "Pop returned %v want %v", gv, wv)
 					}
 				}
+			case "transfer":
+				if in.capk > 0 {
+					break // capacity-limited machines: Transfer's all-or-nothing room test is C15's subject
+				}
+				var vals []any
+				for _, cl := range o.classes {
+					v, sl := in.mk(cl)
+					vals = append(vals, v)
+					if !in.ro && !(in.flag && sl && !in.pol) {
+						in.m = append(in.m, v)
+					}
+				}
+				stackage.Basic().Push(vals...).Transfer(in.s)
 			case "push":
 				var vals []any
 				anyStack := false
@@ -500,6 +530,8 @@ func c13Configs(c *Ctx) []c13Cfg {
 	}
 	out = append(out, c13Cfg{"OR+decorated", 2, 2, nestClasses, false})
 	out = append(out, c13Cfg{"AND+rejected", 2, 2, []string{"prim", "stack", "alias", "ptr-alias", "cond", "nil"}, false})
+	boxed := []string{"prim", "ptr-iface-stack", "stack", "ptr-iface-ptr-alias"}
+	out = append(out, c13Cfg{"OR+boxed", 2, 2, boxed, false}, c13Cfg{"CONDITION+boxed", 1, 1, boxed, true})
 	out = append(out, c13Cfg{"LIST+cap2", 2, 3, []string{"prim", "stack", "ptr-alias", "cond"}, false}, c13Cfg{"NOT+cap2", 2, 3, []string{"prim", "alias", "nil"}, false})
 	// pointers to alias variables the caller fills in and empties behind the stack's back
 	varClasses := []string{"prim", "ptr-alias-var", "stack", "nil"}
